@@ -177,7 +177,12 @@ class ModbusSocketFramer(ModbusFramer):
             raise InvalidMessageReceivedException(result)
         else:
             self.populateResult(result)
-            self.advanceFrame()
+            if error:
+                # the whole buffer was decoded as one raw frame: consume all
+                # of it (advanceFrame would leave its last byte behind)
+                self.resetFrame()
+            else:
+                self.advanceFrame()
             callback(result)  # defer or push to a thread?
 
     def resetFrame(self):
